@@ -103,6 +103,18 @@ def main():
     for pid, d in desc.items():
         if pid in P and P[pid]["claimed"]:
             P[pid]["text"] = "Structural necessary conditions only, decided for every path of the current source (level other). " + d["explanation"]
+    # the rule families each check actually ran on its last run (from its evidence file): the explanation above
+    # names the planned ones, rules added by later seeding rounds are catalogued in DESIGN.md §7.1
+    for pid in P:
+        if not P[pid]["claimed"]:
+            continue
+        try:
+            ev = json.load(open(os.path.join(HERE, "evidence", pid + ".json")))
+            fams = sorted(r for r in ev.get("coverage", {}).get("rule_stats", {}) if not r.startswith("T"))
+            if fams:
+                P[pid]["text"] += " Rule families run (those not named above are described in DESIGN.md §7.1): " + ", ".join(fams) + "."
+        except Exception:
+            pass
     for pid in sorted(P):
         p = P[pid]
         if p["claimed"]:
